@@ -2,7 +2,7 @@
    (a) with the documented meaning spec_method (oracle) and (b) with the backend model (correspondence). *)
 From Coq Require Import List Bool ZArith QArith Qabs String Ascii.
 Import ListNotations.
-From DA Require Import Base.Cases Model.Scalar Model.SqlTemplates Model.ScalarBackends Model.ScalarCatalog.
+From DA Require Import Base.Cases Model.Scalar Model.SqlTemplates Model.ScalarBackends Model.ScalarCatalog Model.AggModels.
 Local Open Scope string_scope.
 
 (* tables of reference values for the transcendental symbols, computed by the harness with Python's math module *)
@@ -35,17 +35,22 @@ Inductive bk := BPandas | BSqlite | BPgtext | BPolars.
 (* method, literal flags, argument values, observed value (None = the backend raised) *)
 Record scase := mk_scase { c_bk : bk; c_m : string; c_lits : list bool; c_args : list sval; c_obs : option sval }.
 
+Fixpoint svl_close (a b : list sval) : bool :=
+  match a, b with [], [] => true | x :: t, y :: u => sv_close x y && svl_close t u | _, _ => false end.
+Record acase := mk_acase { a_bk : bk; a_cls : acls; a_m : string; a_vals : list sval; a_obs : option (list sval) }.
+
 Section Check.
   Variable mt : mtab.
   Variable mt2 : mtab2.
+  Variable vr : variant.
   Let mf := mf_of mt.
   Let mf2 := mf2_of mt2.
 
   Definition model_of (c : scase) : option sval :=
     match c_bk c with
     | BPandas => np_eval mf mf2 (c_m c) (c_args c)
-    | BSqlite => sql_eval mf mf2 DSqlite (c_m c) (c_lits c) (c_args c)
-    | BPgtext => sql_eval_on mf mf2 DPg DSqlite (c_m c) (c_lits c) (c_args c)
+    | BSqlite => sql_eval mf mf2 vr DSqlite (c_m c) (c_lits c) (c_args c)
+    | BPgtext => sql_eval_on mf mf2 vr DPg DSqlite (c_m c) (c_lits c) (c_args c)
     | BPolars => pl_eval mf mf2 (c_m c) (c_args c)
     end.
   Definition in_domain (c : scase) : bool :=
@@ -62,9 +67,50 @@ Section Check.
     | None, None => true
     | _, _ => false end.
 
+  (* one pass: for every case that fails something, 8 * index + (1 if the oracle fails) + (2 if the model disagrees)
+     + (4 if the tuple is outside the documented domain) *)
+  Definition case_code (c : scase) : nat :=
+    let s := spec_method mf mf2 (c_m c) (c_args c) in
+    let o := match s, c_obs c with
+             | Some r, Some v => sv_close v r
+             | Some _, None => match c_bk c with BPolars => true | _ => false end
+             | None, _ => true end in
+    ((if o then 0 else 1) + (if model_ok c then 0 else 2) + (match s with Some _ => 0 | None => 4 end))%nat.
+  Fixpoint codes_from (i : nat) (cs : list scase) : list nat :=
+    match cs with
+    | [] => []
+    | c :: t => match case_code c with O => codes_from (S i) t | k => (8 * i + k)%nat :: codes_from (S i) t end
+    end.
+  Definition check_all (cs : list scase) : list nat := codes_from 0 cs.
   Definition check_oracle (cs : list scase) : list nat := failing_idx oracle_ok cs.
   Definition check_model (cs : list scase) : list nat := failing_idx model_ok cs.
   Definition check_domain (cs : list scase) : list nat := failing_idx in_domain cs.
+
+  (* ---- aggregates / window functions: one case = one group (or ordered partition) on one backend *)
+  Definition agg_model_of (c : acase) : option (list sval) :=
+    match a_bk c with
+    | BPandas => agg_pd mf (a_cls c) (a_m c) (a_vals c)
+    | BSqlite => agg_sql mf mf2 vr DSqlite (a_cls c) (a_m c) (a_vals c)
+    | BPgtext => agg_sql_on mf mf2 vr DPg DSqlite (a_cls c) (a_m c) (a_vals c)
+    | BPolars => agg_pl mf (a_cls c) (a_m c) (a_vals c)
+    end.
+  Definition acase_code (c : acase) : nat :=
+    let s := spec_cls mf (a_cls c) (a_m c) (a_vals c) in
+    let o := match s, a_obs c with
+             | Some r, Some v => svl_close v r
+             | Some _, None => match a_bk c with BPolars => true | _ => false end
+             | None, _ => true end in
+    let mo := match agg_model_of c, a_obs c with
+              | Some r, Some v => svl_close v r
+              | None, None => true
+              | _, _ => false end in
+    ((if o then 0 else 1) + (if mo then 0 else 2) + (match s with Some _ => 0 | None => 4 end))%nat.
+  Fixpoint acodes_from (i : nat) (cs : list acase) : list nat :=
+    match cs with
+    | [] => []
+    | c :: t => match acase_code c with O => acodes_from (S i) t | k => (8 * i + k)%nat :: acodes_from (S i) t end
+    end.
+  Definition check_agg (cs : list acase) : list nat := acodes_from 0 cs.
 End Check.
 
 (* domain filter (phase 0): indices of the candidate tuples INSIDE the documented domain; the transcendental symbols are
@@ -72,11 +118,36 @@ End Check.
 Definition not_in_dom (c : string * list sval) : bool :=
   match spec_method (fun _ _ => Some 0%Q) (fun _ _ _ => Some 0%Q) (fst c) (snd c) with Some _ => false | None => true end.
 Definition inside_domain (cs : list (string * list sval)) : list nat := failing_idx not_in_dom cs.
+Definition not_in_agg_dom (c : acls * string * list sval) : bool :=
+  match spec_cls (fun _ _ => Some 0%Q) (fst (fst c)) (snd (fst c)) (snd c) with Some _ => false | None => true end.
+Definition inside_agg_domain (cs : list (acls * string * list sval)) : list nat := failing_idx not_in_agg_dom cs.
+(* structural tie for aggregates: AGG(row-expression) part of the emitted term *)
+Record arcase := mk_arcase { ar_d : dialect; ar_m : string; ar_col : string; ar_text : string }.
+(* the function part of the ordered-window terms: cumulative aggregates are the plain aggregate (op_replacements),
+   _row_number is ROW_NUMBER(), shift is LAG(x, 1) (_db_lag_expr) *)
+Definition render_win (m : string) (col : string) : option string :=
+  if String.eqb m "cumsum" then Some ("SUM(" ++ col ++ ")")
+  else if String.eqb m "cummax" then Some ("MAX(" ++ col ++ ")")
+  else if String.eqb m "cummin" then Some ("MIN(" ++ col ++ ")")
+  else if String.eqb m "cumprod" then Some ("PROD(" ++ col ++ ")")
+  else if String.eqb m "cumcount" then Some ("SUM(CASE WHEN " ++ col ++ " IS NOT NULL THEN 1 ELSE 0 END)")
+  else if String.eqb m "_row_number" then Some "ROW_NUMBER()"
+  else if String.eqb m "shift" then Some ("LAG(" ++ col ++ ", 1)")
+  else None.
+Definition arender_ok (c : arcase) : bool :=
+  match render_win (ar_m c) (ar_col c) with
+  | Some t => String.eqb t (ar_text c)
+  | None =>
+      match fmt_agg (ar_d c) (ar_m c) with
+      | Some t => String.eqb (render_agg t (QAtom false (ar_col c) SNull)) (ar_text c)
+      | None => false end
+  end.
+Definition check_agg_render (cs : list arcase) : list nat := failing_idx arender_ok cs.
 
 (* structural tie: template rendered to text = text emitted by the real code (whitespace canonicalised by the harness) *)
-Record rcase := mk_rcase { r_d : dialect; r_m : string; r_atoms : list (bool * string * sval); r_text : string }.
+Record rcase := mk_rcase { r_v : variant; r_d : dialect; r_m : string; r_atoms : list (bool * string * sval); r_text : string }.
 Definition render_ok (c : rcase) : bool :=
-  match fmt (r_d c) (r_m c) (map (fun a => QAtom (fst (fst a)) (snd (fst a)) (snd a)) (r_atoms c)) with
+  match fmt (r_v c) (r_d c) (r_m c) (map (fun a => QAtom (fst (fst a)) (snd (fst a)) (snd a)) (r_atoms c)) with
   | Some e => String.eqb (render e) (r_text c)
   | None => false end.
 Definition check_render (cs : list rcase) : list nat := failing_idx render_ok cs.
@@ -90,3 +161,5 @@ Definition row_eqb (a b : catrow) : bool :=
 Definition catalog_eqb := list_eqb row_eqb.
 Definition keys_eqb := list_eqb String.eqb.
 Definition pairs_eqb := list_eqb (fun a b : string * string => String.eqb (fst a) (fst b) && String.eqb (snd a) (snd b)).
+Definition expr_keys_eqb := list_eqb (fun a b : string * (string * list bool) =>
+  String.eqb (fst a) (fst b) && String.eqb (fst (snd a)) (fst (snd b)) && list_eqb Bool.eqb (snd (snd a)) (snd (snd b))).
